@@ -35,9 +35,7 @@ Proof. vm_compute. reflexivity. Qed.
 Lemma gen_ds_candidate_src : map strip_ws ds_candidate_src =
   [src "KeyTag(key) == parentDS.KeyTag && key.Algorithm == parentDS.Algorithm && key.Header().Class == parentDS.Header().Class && strings.EqualFold(key.Header().Name, parentDS.Header().Name) && key.Protocol == 3 && key.Flags&dns.ZONE != 0"].
 Proof. vm_compute. reflexivity. Qed.
-Lemma gen_sig_matches_src : map strip_ws sig_matches_src =
-  [src "header.Class == sig.Header().Class && header.Rrtype == sig.TypeCovered && dns.CountLabel(header.Name) >= int(sig.Labels) && strings.EqualFold(header.Name, sig.Header().Name) && dnsutil.NameInZone(strings.ToLower(dns.Fqdn(header.Name)), signer)"].
-Proof. vm_compute. reflexivity. Qed.
+(* signatureMatchesRRset: no longer a source-text pin — machine-translated, gen_signatureMatchesRRset_lemma in Proofs_match.v *)
 Lemma gen_validate_signer_src : map strip_ws validate_signer_src =
   [src "if signer == """""; src "if !dnsutil.NameInZone(strings.ToLower(dns.Fqdn(qname)), strings.ToLower(dns.Fqdn(signer)))"].
 Proof. vm_compute. reflexivity. Qed.
